@@ -339,18 +339,24 @@ pub const SHRINK_SECS: u64 = 20;
 pub const TRACE_SLOT: usize = 1 << 16;
 pub const TRACE_SLOTS: usize = 64;
 static TRACE_PTR: std::sync::atomic::AtomicUsize = std::sync::atomic::AtomicUsize::new(0);
+static TRACE_PATH: std::sync::OnceLock<String> = std::sync::OnceLock::new();
 pub fn trace_enable(path: &str) {
     use std::os::unix::io::AsRawFd;
     let Ok(f) = std::fs::OpenOptions::new().read(true).write(true).create(true).truncate(true).open(path) else { return };
     if f.set_len((TRACE_SLOT * TRACE_SLOTS) as u64).is_err() { return; }
     let p = unsafe { libc::mmap(std::ptr::null_mut(), TRACE_SLOT * TRACE_SLOTS, libc::PROT_READ | libc::PROT_WRITE, libc::MAP_SHARED, f.as_raw_fd(), 0) };
-    if p != libc::MAP_FAILED { TRACE_PTR.store(p as usize, Ordering::SeqCst); }
+    if p != libc::MAP_FAILED { let _ = TRACE_PATH.set(path.to_string()); TRACE_PTR.store(p as usize, Ordering::SeqCst); }
 }
 static TRACE_T0: std::sync::OnceLock<Instant> = std::sync::OnceLock::new();
 fn trace_set<C: Serialize>(worker: usize, sub: &str, case: &C) {
     let base = TRACE_PTR.load(Ordering::Relaxed); if base == 0 { return; }
     let Ok(mut body) = serde_json::to_vec(&json!({"sub": sub, "case": case})) else { return };
-    body.truncate(TRACE_SLOT - 8);
+    if body.len() > TRACE_SLOT - 8 {
+        // a case too large for its slot goes to a side file; the slot points to it
+        let side = format!("{}.w{}.json", TRACE_PATH.get().map(|s| s.as_str()).unwrap_or("/dev/shm/kverif-trace"), worker % TRACE_SLOTS);
+        if std::fs::write(&side, &body).is_err() { return; }
+        body = serde_json::to_vec(&json!({"sub": sub, "big": side})).unwrap_or_default();
+    }
     let slot = (base + (worker % TRACE_SLOTS) * TRACE_SLOT) as *mut u8;
     let ts = TRACE_T0.get_or_init(Instant::now).elapsed().as_secs() as u32;
     unsafe { std::ptr::write_volatile(slot as *mut u32, 0); std::ptr::write_volatile((slot as *mut u32).add(1), ts); std::ptr::copy_nonoverlapping(body.as_ptr(), slot.add(8), body.len()); std::ptr::write_volatile(slot as *mut u32, body.len() as u32); }
@@ -369,7 +375,8 @@ pub fn start_hang_monitor(id: String, root: PathBuf, limit_s: u64) {
             let (len, ts) = unsafe { (std::ptr::read_volatile(slot as *const u32) as usize, std::ptr::read_volatile((slot as *const u32).add(1))) };
             if len == 0 || len > TRACE_SLOT - 8 || (now.saturating_sub(ts) as u64) < limit_s.max(HANG_LIMIT.load(Ordering::Relaxed)) { continue; }
             let body = unsafe { std::slice::from_raw_parts(slot.add(8), len) }.to_vec();
-            let Ok(v) = serde_json::from_slice::<Value>(&body) else { continue };
+            let Ok(mut v) = serde_json::from_slice::<Value>(&body) else { continue };
+            if let Some(side) = v.get("big").and_then(|b| b.as_str()) { if let Some(full) = std::fs::read(side).ok().and_then(|t| serde_json::from_slice::<Value>(&t).ok()) { v = full; } }
             let dir = root.join("replays").join(&id); let _ = std::fs::create_dir_all(&dir);
             let p = dir.join(format!("{}-hang-{:016x}.json", v["sub"].as_str().unwrap_or("x"), fnv64(&body)));
             let _ = std::fs::write(&p, serde_json::to_string_pretty(&json!({"property": id, "sub": v["sub"], "case": v["case"], "message": format!("the case did not finish within {} s", now - ts)})).unwrap());
@@ -392,7 +399,8 @@ pub fn triage(id: &str, root: &std::path::Path, file: &str) -> i32 {
     for s in 0..TRACE_SLOTS {
         let off = s * TRACE_SLOT; if off + 8 > data.len() { break; }
         let len = u32::from_le_bytes(data[off..off + 4].try_into().unwrap()) as usize; if len == 0 || off + 8 + len > data.len() { continue; }
-        let Ok(v) = serde_json::from_slice::<Value>(&data[off + 8..off + 8 + len]) else { continue };
+        let Ok(mut v) = serde_json::from_slice::<Value>(&data[off + 8..off + 8 + len]) else { continue };
+        if let Some(side) = v.get("big").and_then(|b| b.as_str()) { let Ok(t) = std::fs::read(side) else { continue }; let Ok(full) = serde_json::from_slice::<Value>(&t) else { continue }; let _ = std::fs::remove_file(side); v = full; }
         let body = json!({"property": id, "sub": v["sub"], "case": v["case"], "message": "the process ended abnormally (abort / signal) while executing this case"});
         let dir = root.join("replays").join(id); let _ = std::fs::create_dir_all(&dir);
         let p = dir.join(format!("{}-abort-{:016x}.json", v["sub"].as_str().unwrap_or("x"), fnv64(&data[off + 8..off + 8 + len])));
